@@ -44,6 +44,17 @@ enum Xfer {
     Tx(watch::Sender<u32, D>),
 }
 
+/// The `oversize` cases: the two endpoints of the base channel use different types for the same wire format, so that
+/// only the receiving endpoint has the small item-size limit.
+#[derive(Serialize, Deserialize)]
+enum BigA {
+    Rx(watch::Receiver<Vec<u8>, D>),
+}
+#[derive(Serialize, Deserialize)]
+enum BigB {
+    Rx(watch::Receiver<Vec<u8>, D, 64>),
+}
+
 #[derive(Clone, Debug, PartialEq)]
 enum Op {
     Send(u8),
@@ -423,6 +434,93 @@ fn exec_case(hdr: &Hdr, ops: &[Op]) -> Vec<String> {
 }
 
 // ---------------------------------------------------------------------------------------------
+// oversize cases: the receiving endpoint has a smaller item-size limit than the sender.  An update that exceeds it is
+// a receive error *for that update*; the channel lives on and the receiver must still converge to the last value.
+
+fn big_val(idx: u32, len: usize) -> Vec<u8> {
+    let mut v = idx.to_le_bytes().to_vec();
+    v.resize(4 + len, 0xee);
+    v
+}
+
+async fn run_oversize(r: &mut Rng, out: &mut Vec<String>) {
+    let (a_io, b_io) = tokio::io::duplex(4096);
+    let (a_rd, a_wr) = tokio::io::split(a_io);
+    let (b_rd, b_wr) = tokio::io::split(b_io);
+    let mut cfg = remoc::Cfg::default();
+    cfg.connection_timeout = None;
+    let (a, b) = tokio::join!(
+        remoc::Connect::io::<_, _, BigA, BigA, D>(cfg.clone(), a_rd, a_wr),
+        remoc::Connect::io::<_, _, BigB, BigB, D>(cfg.clone(), b_rd, b_wr),
+    );
+    let (a_conn, mut a_tx, _a_rx) = a.expect("connect A");
+    let (b_conn, _b_tx, mut b_rx) = b.expect("connect B");
+    tokio::spawn(a_conn);
+    tokio::spawn(b_conn);
+    let (tx, rx) = watch::channel::<Vec<u8>, D>(big_val(0, 0));
+    let (s, rr) = tokio::join!(tokio::time::timeout(HOUR, a_tx.send(BigA::Rx(rx))), tokio::time::timeout(HOUR, b_rx.recv()));
+    let mut rx = match (s, rr) {
+        (Ok(Ok(())), Ok(Ok(Some(BigB::Rx(rx))))) => rx,
+        _ => {
+            out.push("abort transfer".into());
+            return;
+        }
+    };
+    settle().await;
+    let n = r.range(2, 6) as u32;
+    let big_at = r.range(1, (n - 1) as u64) as u32;
+    for k in 1..=n {
+        let len = if k == big_at || (k < n && r.chance(1, 4)) { r.range(100, 400) as usize } else { r.below(40) as usize };
+        if tx.send(big_val(k, len)).is_err() {
+            out.push(format!("ovsendfail {k}"));
+            break;
+        }
+        out.push(format!("ovsent {k} len={}", 4 + len));
+        if r.bool() {
+            settle().await;
+        } else {
+            for _ in 0..r.below(6) {
+                tokio::task::yield_now().await;
+            }
+        }
+        if r.bool() {
+            match tokio::time::timeout(Duration::from_millis(1), rx.changed()).await {
+                Ok(Err(_)) => out.push("overr changed-closed".into()),
+                _ => {}
+            }
+        }
+    }
+    settle().await;
+    match tokio::time::timeout(Duration::from_millis(1), rx.changed()).await {
+        Ok(Err(_)) => out.push("overr changed-closed".into()),
+        _ => {}
+    }
+    settle().await;
+    match rx.borrow() {
+        Ok(v) => out.push(format!("ovread {}", u32::from_le_bytes([v[0], v[1], v[2], v[3]]))),
+        Err(e) => out.push(format!("ovread err {e}").replace('\n', " ")),
+    };
+    drop(tx);
+}
+
+fn exec_oversize(i: u64, r: &mut Rng) -> Vec<String> {
+    let mut out = vec![format!("case ov-{i} conns=1 cbuf=65536 pipe=4096")];
+    let res = catch_unwind(AssertUnwindSafe(|| {
+        let rt = tokio::runtime::Builder::new_current_thread().enable_all().start_paused(true).build().unwrap();
+        let mut lines = Vec::new();
+        rt.block_on(run_oversize(r, &mut lines));
+        drop(rt);
+        lines
+    }));
+    match res {
+        Ok(lines) => out.extend(lines),
+        Err(_) => out.push("panic oversize-case".into()),
+    }
+    out.push("end".into());
+    out
+}
+
+// ---------------------------------------------------------------------------------------------
 // generator
 
 #[derive(Default)]
@@ -651,6 +749,15 @@ fn main() {
                     writeln!(out, "{l}").unwrap();
                 }
                 out.flush().unwrap();
+            }
+            // the oversize cases (one for every 25 ordinary ones, at least four)
+            let nov = (count / 25).max(4);
+            for i in 0..nov {
+                let mut r = rng.fork();
+                for l in exec_oversize(i, &mut r) {
+                    writeln!(out, "{l}").unwrap();
+                }
+                st.add("oversize_cases", 1);
             }
             for (k, v) in &st.m {
                 eprintln!("STAT {k} {v}");
